@@ -16,6 +16,7 @@ import (
 type calRec struct {
 	year, month, day, hour, minute, second, weekday, dim, days *Term
 	sec                                                        *Term // seconds since 1970-01-01T00:00 of the wall-clock reading
+	utc                                                        *calRec // for a zone reading: the UTC reading of the same instant
 }
 
 // calKey identifies the calendar reading of an instant in a zone (nil = UTC).
@@ -29,6 +30,17 @@ type calKey struct {
 type fixedZone struct {
 	name value
 	off  *Term
+	// a zone with one transition (vfTransitionZone): off before the instant trans
+	// (Unix seconds), off2 from it on; nil for a fixed zone
+	trans, off2 *Term
+}
+
+// offAt is the zone's offset at the instant utcSec (seconds since 1970, UTC).
+func (z *fixedZone) offAt(in *Interp, utcSec *Term) *Term {
+	if z.trans == nil {
+		return z.off
+	}
+	return in.tc.Ite(in.tc.Slt(utcSec, z.trans), z.off, z.off2)
 }
 
 // zoneOf returns the fixed zone behind a *time.Location value, or nil for UTC/Local.
@@ -38,7 +50,7 @@ func (in *Interp) zoneOf(loc value) (*value, *fixedZone) {
 		return nil, nil
 	}
 	if z, ok := (*p).(*fixedZone); ok {
-		if z.off.IsConst() && z.off.c == 0 {
+		if z.trans == nil && z.off.IsConst() && z.off.c == 0 {
 			return nil, nil
 		}
 		return p, z
@@ -62,7 +74,8 @@ func (in *Interp) calOf(t value) *calRec {
 	if z != nil {
 		// the same instant read in a fixed zone: derive its wall-clock fields
 		if base, ok := in.side[calKey{ext, nil}].(*calRec); ok && base.sec != nil {
-			c := in.shiftCal(base, z.off)
+			c := in.shiftCal(base, z.offAt(in, base.sec))
+			c.utc = base
 			in.side[calKey{ext, lp}] = c
 			return c
 		}
@@ -198,7 +211,27 @@ func registerCalendar() {
 	vfAPI["vfCalendarTime"] = func(in *Interp, fr *frame, fn *ssa.Function, a []value) value {
 		return in.newCalendarTime(in.mustStr(a[0], "vfCalendarTime"))
 	}
+	vfAPI["vfTransitionZone"] = func(in *Interp, fr *frame, fn *ssa.Function, a []value) value {
+		p := new(value)
+		*p = &fixedZone{name: a[0], trans: a[1].(*Term), off: a[2].(*Term), off2: a[3].(*Term)}
+		return p
+	}
 	I := intrinsics
+	I["(time.Time).Date"] = func(in *Interp, fr *frame, fn *ssa.Function, a []value) value {
+		c := in.calOf(a[0])
+		if c == nil {
+			inst := in.timeInst(a[0])
+			if !inst.sec.IsConst() {
+				panic(engineErr("Date() of a symbolic instant that is not a vfCalendarTime"))
+			}
+			t := time.Unix(signExt(inst.sec.c, 64)-unixToInternal, 0).UTC()
+			if _, z := in.zoneOf(a[0].(structure)[2]); z != nil {
+				panic(engineErr("Date() of a constant instant in a zone"))
+			}
+			return tuple{in.i64(int64(t.Year())), in.i64(int64(t.Month())), in.i64(int64(t.Day()))}
+		}
+		return tuple{c.year, c.month, c.day}
+	}
 	I["time.FixedZone"] = func(in *Interp, fr *frame, fn *ssa.Function, a []value) value {
 		p := new(value)
 		*p = &fixedZone{name: a[0], off: a[1].(*Term)}
@@ -271,6 +304,47 @@ func registerCalendar() {
 					ext := in.tc.Fresh("lastday", 64)
 					lp, _ := in.zoneOf(a[7])
 					in.side[calKey{ext, lp}] = &calRec{year: c.year, month: c.month, day: c.dim, hour: a[3].(*Term), minute: a[4].(*Term), dim: c.dim}
+					return structure{in.i64(0), ext, a[7]}
+				}
+			}
+		}
+		// Date(y, m, d, h, mi, s, 0, loc) with y/m/d taken from a calendar reading in loc
+		// and constant clock fields: the instant at which loc's wall clock shows that time
+		// (Go's rule for a zone with one transition: try the offset in effect at the wall
+		// time read as UTC, and if the result falls outside that offset's period, the
+		// offset in effect at the result)
+		if dt, ok := a[2].(*Term); ok {
+			hh, ok1 := cint(a[3])
+			mm, ok2 := cint(a[4])
+			ss, ok3 := cint(a[5])
+			ns, ok4 := cint(a[6])
+			lp, z := in.zoneOf(a[7])
+			if ok1 && ok2 && ok3 && ok4 && ns == 0 {
+				for k, rec := range in.side {
+					ck, isCal := k.(calKey)
+					if !isCal || ck.loc != lp {
+						continue
+					}
+					c := rec.(*calRec)
+					if c.year != y || c.month != m || c.day != dt || c.days == nil {
+						continue
+					}
+					tc := in.tc
+					L := tc.Add(tc.Mul(c.days, tc.Const(64, 86400)), tc.Const(64, uint64(hh*3600+mm*60+ss)))
+					var off *Term
+					switch {
+					case z == nil:
+						off = tc.Const(64, 0)
+					case z.trans == nil:
+						off = z.off
+					default:
+						first := tc.Slt(L, z.trans)
+						a1 := tc.Ite(first, z.off, z.off2)
+						utc := tc.Sub(L, a1)
+						valid := tc.Eq(tc.Slt(utc, z.trans), first)
+						off = tc.Ite(valid, a1, tc.Ite(tc.Slt(utc, z.trans), z.off, z.off2))
+					}
+					ext := tc.Add(tc.Sub(L, off), tc.Const(64, unixToInternal))
 					return structure{in.i64(0), ext, a[7]}
 				}
 			}
